@@ -352,13 +352,14 @@ def data_grid(arr, spacing=None, medium_index=None, illum_wavelen=None,
 
     if np.isscalar(spacing):
         spacing = np.repeat(spacing, 2)
-    if np.isscalar(z) and (len(arr) > 1 or arr.ndim == 2):
-        arr = np.expand_dims(arr, axis=0)
-    coords = make_coords(arr.shape, spacing, z)
     if extra_dims is None:
         extra_dims = {}
-    else:
-        coords.update(extra_dims)
+    # an array with only (x, y) and the extra dimensions has no z axis yet,
+    # even when its first axis has length 1:
+    if np.isscalar(z) and (len(arr) > 1 or arr.ndim == 2 + len(extra_dims)):
+        arr = np.expand_dims(arr, axis=0)
+    coords = make_coords(arr.shape, spacing, z)
+    coords.update(extra_dims)
     dims = ['z', 'x', 'y'] + list(extra_dims.keys())
     out = xr.DataArray(arr, dims=dims,  coords=coords, name=name)
     out = update_metadata(
